@@ -89,6 +89,8 @@ use linfa_kernel::KernelMethod;
 pub use solver_smo::{SeparatingHyperplane, SolverParams};
 #[cfg(linfa_verif)]
 pub use solver_smo::verif_hooks_c13;
+#[cfg(linfa_verif)]
+pub use solver_smo::verif_hooks_c13g;
 
 use std::ops::Mul;
 
